@@ -4,9 +4,9 @@ use indicatif::{ProgressBar, ProgressDrawTarget, ProgressStyle};
 use std::panic::{catch_unwind, AssertUnwindSafe};
 
 #[derive(Clone)]
-enum B { Tc(usize), Ts(usize), Pc(Vec<u8>) }
+enum B { Tc(usize, u8), Ts(usize), Pc(Vec<u8>) }
 
-fn cluster(w: u8, i: usize) -> char { match w { 0 => ['\u{200b}', '\u{2060}', '\u{200c}'][i % 3], 1 => (b'a' + (i % 26) as u8) as char, _ => ['日', '本', '語', '字'][i % 4] } }
+fn cluster(w: u8, i: usize) -> char { match w { 0 => ['\u{200b}', '\u{2060}', '\u{200c}'][i % 3], 1 => (b'a' + (i % 26) as u8) as char, 3 => ['é', 'ü', '⠁', 'ß'][i % 4], _ => ['日', '本', '語', '字'][i % 4] } }
 
 pub fn run(seed: u64, tier: &str, out: &mut Out) {
     let mut rng = Rng::new(seed);
@@ -17,14 +17,14 @@ pub fn run(seed: u64, tier: &str, out: &mut Out) {
         let mut ops = Vec::new();
         for _ in 0..k {
             ops.push(match rng.below(3) {
-                0 => B::Tc(*rng.pick(&[0usize, 1, 2, 3, 30])),
+                0 => B::Tc(*rng.pick(&[0usize, 1, 1, 2, 3, 30]), *rng.pick(&[1u8, 1, 3, 3, 2])),   // the characters may be one byte, several bytes, or double width
                 1 => B::Ts(*rng.pick(&[0usize, 1, 2, 3, 30])),
                 _ => { let len = *rng.pick(&[0usize, 1, 2, 3, 4, 5, 10]); let mixed = rng.chance(1, 3); let w = *rng.pick(&[0u8, 1, 1, 2]);
                        let odd = if len > 0 { rng.below(len as u64) as usize } else { 0 };   // the character of another width can sit anywhere, also last
                        B::Pc((0..len).map(|i| if mixed && i == odd { (w + 1 + rng.below(2) as u8) % 3 } else { w }).collect()) }
             });
         }
-        let case = format!("STYLE FX={fx} ; {}", ops.iter().map(|o| match o { B::Tc(n) => format!("tc {n}"), B::Ts(n) => format!("ts {n}"), B::Pc(ws) => format!("pc {}", if ws.is_empty() { "-".into() } else { ws.iter().map(|w| w.to_string()).collect::<Vec<_>>().join(",") }) }).collect::<Vec<_>>().join(" ; "));
+        let case = format!("STYLE FX={fx} ; {}", ops.iter().map(|o| match o { B::Tc(n, _) => format!("tc {n}"), B::Ts(n) => format!("ts {n}"), B::Pc(ws) => format!("pc {}", if ws.is_empty() { "-".into() } else { ws.iter().map(|w| w.to_string()).collect::<Vec<_>>().join(",") }) }).collect::<Vec<_>>().join(" ; "));
         let ops2 = ops.clone();
         // the bar state a style must cope with includes the texts: wide, combining and coloured ones in truncating fields
         let tpl: &'static str = *rng.pick(&["{spinner} {bar:20} {wide_bar}", "{spinner} {bar:20} {wide_bar}", "{spinner} {wide_msg} {bar:7}", "{prefix:3!} {msg:>4!} {msg:^5!} {bar:0}", "{wide_msg:^} {pos}/{len}"]);
@@ -32,14 +32,14 @@ pub fn run(seed: u64, tier: &str, out: &mut Out) {
         let built = catch_unwind(move || {
             let mut s = ProgressStyle::with_template(tpl).unwrap();
             for o in &ops2 { s = match o {
-                B::Tc(n) => { let t: String = (0..*n).map(|i| cluster(1, i)).collect(); s.tick_chars(&t) }
+                B::Tc(n, cls) => { let t: String = (0..*n).map(|i| cluster(*cls, i)).collect(); s.tick_chars(&t) }
                 B::Ts(n) => { let v: Vec<String> = (0..*n).map(|i| format!("t{i}")).collect(); let r: Vec<&str> = v.iter().map(|x| x.as_str()).collect(); s.tick_strings(&r) }
                 B::Pc(ws) => { let t: String = ws.iter().enumerate().map(|(i, w)| cluster(*w, i)).collect(); s.progress_chars(&t) }
             }; }
             s
         });
         // what the statement says must be rejected when the style is built
-        let must_reject = ops.iter().any(|o| match o { B::Tc(n) | B::Ts(n) => *n < 2, B::Pc(ws) => ws.len() < 2 || ws.iter().any(|w| *w != ws[0]) });
+        let must_reject = ops.iter().any(|o| match o { B::Tc(n, _) | B::Ts(n) => *n < 2, B::Pc(ws) => ws.len() < 2 || ws.iter().any(|w| *w != ws[0]) });
         let (obs, verdict) = match built {
             Err(_) => ("rejected".to_string(), "ok".to_string()),
             Ok(_) if must_reject => ("accepted ok".to_string(), format!("FAIL not-rejected-early {}", case)),
